@@ -645,6 +645,11 @@ func (m *apiRunner) oplogMonitors(c *apiCall, reply string, pre, post *lungo.Cat
 		viol("C08", "replaying the appended events on the previous contents does not give the new contents", "oplog-replay:"+c.M,
 			fmt.Sprintf("%d events; replayed %q actual %q", len(events), contentKey(state), after))
 	}
+	// C11: an update whose result is identical reports zero modified
+	if (c.M == "updateOne" || c.M == "updateMany" || c.M == "replaceOne") && before == after &&
+		strings.Contains(reply, `"modified":`) && !strings.Contains(reply, `"modified":0`) {
+		viol("C11", "an update that left every document identical reports a non-zero modified count", "noop-reported-modified:"+c.M, reply)
+	}
 	if c.M != "bulkWrite" && len(events) > 0 && before == after {
 		// drops of empty namespaces change the namespace set only
 		onlyDrops := true
